@@ -361,6 +361,36 @@ def rule_C(run, prog):
                        sample={"site": construct, "patterns": 15,
                                "zeroed_patterns": sorted(k for k, v in table.items() if v)})
         tables.append((construct, table))
+    # secular bookkeeping (rates and dephasings kept beside the tensor) must not write into the tensor:
+    # numpy.einsum with a single operand returns a *view* of it (diagonal extraction), so an element
+    # store into that result is a store into the data
+    rt = prog.cls(LS + "relaxationtensor.RelaxationTensor")
+    nview = 0
+    for nme, fn in sorted(rt.methods.items()):
+        views = {}
+        for n in walk_no_nested(fn.node):
+            if isinstance(n, ast.Assign) and isinstance(n.value, ast.Call) and len(n.targets) == 1:
+                c = n.value
+                cn = norm(c.func).split(".")[-1]
+                is_view = (cn == "einsum" and len(c.args) == 2 and norm(c.args[1]) in ("self.data", "self._data")) or \
+                          (cn in ("diagonal", "reshape", "transpose", "swapaxes", "ravel") and c.args
+                           and norm(c.args[0]) in ("self.data", "self._data"))
+                if is_view:
+                    views[norm(n.targets[0])] = n
+        if not views:
+            continue
+        for tgt, node in sorted(views.items()):
+            nview += 1
+            writes = [w for w in walk_no_nested(fn.node) if isinstance(w, (ast.Assign, ast.AugAssign))
+                      and any(isinstance(t_, ast.Subscript) and norm(t_.value) == tgt
+                              for t_ in (w.targets if isinstance(w, ast.Assign) else [w.target]))]
+            run.obligation(rid, "RelaxationTensor." + nme, not writes, key="no-write-through-view:" + tgt,
+                           message="%s is a view of the tensor data (%s) and is then written element-wise (%s): the "
+                                   "tensor itself is modified (R[i,i,i,i] zeroed), the trace identity is lost"
+                                   % (tgt, norm(node.value)[:50], [norm(w)[:40] for w in writes[:2]]),
+                           loc=fn.loc(writes[0]) if writes else fn.loc(node), sample={"view": tgt})
+    if nview < 2:
+        raise AnalysisError("secular bookkeeping: views of the tensor data not found (%d)" % nview)
     # sibling agreement
     ref = tables[0][1]
     for construct, t in tables[1:]:
